@@ -64,6 +64,8 @@ pub enum SK {
     Assign(String, E),
     Print(Vec<PArg>),
     If(E, Vec<S>, Vec<(E, Vec<S>)>, Option<Vec<S>>),
+    /// single-line IF c THEN s1 : s2 [ELSE s3 : s4] with simple statements only
+    IfLine(E, Vec<S>, Option<Vec<S>>),
     While(E, Vec<S>),
     Do(bool, bool, E, Vec<S>), // top, until
     For(String, E, E, Option<E>, Vec<S>),
@@ -98,7 +100,7 @@ fn op_text(i: usize) -> &'static str {
     }
 }
 
-fn bop_index(o: Operator) -> usize {
+pub fn bop_index(o: Operator) -> usize {
     BOPS.iter().position(|(x, _)| *x == o).unwrap()
 }
 
@@ -182,9 +184,52 @@ impl Printer {
         }
     }
 
+    fn inline_stmts(&mut self, b: &mut Vec<S>) {
+        let n = b.len();
+        for (i, st) in b.iter_mut().enumerate() {
+            st.pos = self.here();
+            match &mut st.k {
+                SK::Assign(nm, x) => {
+                    let nm = nm.clone();
+                    self.put(&nm);
+                    self.put(" = ");
+                    self.expr(x);
+                }
+                SK::Print(args) => {
+                    self.put("PRINT");
+                    for a in args.iter_mut() {
+                        match a {
+                            PArg::Comma => self.put(" ,"),
+                            PArg::Semi => self.put(" ;"),
+                            PArg::Expr(x) => {
+                                self.put(" ");
+                                self.expr(x);
+                            }
+                        }
+                    }
+                }
+                _ => panic!("only simple statements can be printed inline"),
+            }
+            if i + 1 < n {
+                self.put(" : ");
+            }
+        }
+    }
+
     pub fn stmt(&mut self, st: &mut S) {
         st.pos = self.here();
         match &mut st.k {
+            SK::IfLine(c, thn, els) => {
+                self.put("IF ");
+                self.expr(c);
+                self.put(" THEN ");
+                self.inline_stmts(thn);
+                if let Some(b) = els {
+                    self.put(" ELSE ");
+                    self.inline_stmts(b);
+                }
+                self.nl();
+            }
             SK::Assign(n, x) => {
                 let n = n.clone();
                 self.put(&n);
@@ -408,6 +453,16 @@ pub fn coq_stmt(st: &S) -> String {
             coq_expr(c),
             coq_block(thn),
             elifs.iter().map(|(c2, b)| format!("({}, {})", coq_expr(c2), coq_block(b))).collect::<Vec<_>>().join("; "),
+            match els {
+                Some(b) => format!("(Some {})", coq_block(b)),
+                None => "None".to_string(),
+            }
+        ),
+        SK::IfLine(c, thn, els) => format!(
+            "(SIf {} {} {} [] {})",
+            p,
+            coq_expr(c),
+            coq_block(thn),
             match els {
                 Some(b) => format!("(Some {})", coq_block(b)),
                 None => "None".to_string(),
